@@ -38,7 +38,7 @@ CHECKS["C19"] = {
 }
 
 PFCP_ASSUME = [
-    "logrus calls are no-ops (Fatal* = process exit event); fmt/pkg-errors formatting is an intrinsic (pkg/errors.Wrap(nil)==nil kept)",
+    "logrus calls are no-ops (Fatal* = process exit event); fmt/pkg-errors formatting is an intrinsic (pkg/errors.Wrap(nil)==nil kept); go-pfcp's informational logger and encoding/hex.Dump (argument of a Tracef) are empty stubs",
     "UDP: WriteTo appends to a log, no loss/reordering; timers never fire by themselves",
     "time.Now is a fixed concrete instant; node ids are IPv4 literals (no DNS)",
     "map iteration in insertion order in the engine (Go randomises); oracles treat map-ordered outputs as multisets",
@@ -112,7 +112,7 @@ CHECKS["C05"] = {
 CHECKS["C11"] = {
     "jobs": {
         "quick": [{"pkg": "internal/pfcp", "entries": ["ZZ_C11_*"], "witnesses": 3, "max_paths": 400000, "budget_s": 600}],
-        "thorough": [{"pkg": "internal/pfcp", "entries": ["ZZ_C11_*"], "witnesses": 8, "max_paths": 4000000, "budget_s": 3000}],
+        "thorough": [{"pkg": "internal/pfcp", "entries": ["ZZ_C11_*"], "witnesses": 8, "max_paths": 8000000, "budget_s": 10800}],
     },
     "covers": {"all": ["ZZ_C11_History:C11.hist.done", "ZZ_C11_History:C11.report-seen", "ZZ_C11_History:C11.recreated", "ZZ_C11_TwoSessions:C11.two.done"]},
     "bounds": {
@@ -318,9 +318,11 @@ CHECKS["C07"] = {
         "quick": [{"pkg": "internal/pfcp", "entries": ["ZZ_C07_*"], "witnesses": 4, "max_paths": 400000, "budget_s": 300, "max_concretize": 1024}],
         "thorough": [{"pkg": "internal/pfcp", "entries": ["ZZ_C07_*"], "witnesses": 8, "max_paths": 4000000, "budget_s": 3000, "max_concretize": 4096}],
     },
-    "covers": {"all": ["ZZ_C07_SweepEmpty:C07.sweep.done", "ZZ_C07_SweepGtp5g:C07.sweep.done"]},
-    "bounds": {"quick": "IE payload sweep through the real event loop (PfcpServer.main + receiver as coroutines, marshalled datagrams) after an association and a bystander session: for each of 39 leaf IE types that go-upf or the gtp5g driver decodes (Node ID, F-SEID, and the children of Create/Update PDR, PDI, FAR, Forwarding Parameters, QER, URR, BAR) one IE with a symbolic payload of every length 0..nominal+2 inside an otherwise well-formed Establishment and a following Modification, with the no-op driver and with the gtp5g driver on the simulated kernel; afterwards a Heartbeat must be answered and the bystander intact. SDF Filter: flow-description octets ASCII; FD length field <= payload length or >= 256",
-               "thorough": "same with the SDF Filter FD length field unconstrained (every feasible value up to the buffer capacity is a path)"},
-    "outside": "datagrams that do not parse as a PFCP message of a known type (raw-byte envelope fuzzing of go-pfcp's message.Parse is not covered by this check); several malformed IEs in one message; non-ASCII flow-description text; header-SEID addressing is decided under C04 (ZZ_C04_ModifyHeader / DeleteHeader with an unconstrained 64-bit SEID)",
+    "covers": {"all": ["ZZ_C07_SweepEmpty:C07.sweep.done", "ZZ_C07_SweepGtp5g:C07.sweep.done", "ZZ_C07_RawAnyEmpty:C07.raw.done", "ZZ_C07_RawAnyGtp5g:C07.raw.done",
+                       "ZZ_C07_RawHandledEmpty:C07.raw.done", "ZZ_C07_RawHandledGtp5g:C07.raw.done"]},
+    "bounds": {"quick": "(a) envelope: after a valid prefix (association, a bystander session, a second session created and deleted) ONE datagram of n fully symbolic octets from the associated or from an unknown peer goes through the real receive path (rcvCh -> go-pfcp message.Parse with its header, message and IE decoders -> transactions -> dispatcher -> handlers -> driver): every n in 0..12 with all 256 message types, and every n in 8..14 with the message type fixed to one of the six that go-upf dispatches (1, 5, 50, 52, 54, 57); afterwards a Heartbeat from the other peer must be answered with the right type and sequence number and the bystander must be intact unless the datagram is a Modification/Deletion carrying its SEID or an Association Setup. "
+                        "(b) IE payload sweep through the real event loop (PfcpServer.main + receiver as coroutines, marshalled datagrams) after an association and a bystander session: for each of 39 leaf IE types that go-upf or the gtp5g driver decodes (Node ID, F-SEID, and the children of Create/Update PDR, PDI, FAR, Forwarding Parameters, QER, URR, BAR) one IE with a symbolic payload of every length 0..nominal+2 inside an otherwise well-formed Establishment and a following Modification, with the no-op driver and with the gtp5g driver on the simulated kernel; afterwards a Heartbeat must be answered and the bystander intact. SDF Filter: flow-description octets ASCII; FD length field <= payload length or >= 256",
+               "thorough": "(a) every n in 0..16 with all message types, every n in 8..18 with a dispatched type; (b) same with the SDF Filter FD length field unconstrained (every feasible value up to the buffer capacity is a path)"},
+    "outside": "raw datagrams longer than the stated n (up to the 1500-octet maximum), and more than one raw datagram per history; several malformed IEs in one message beyond what fits in n octets; non-ASCII flow-description text; the kernel's UDP stack (datagrams enter at rcvCh, exactly as the receiver goroutine forwards them); header-SEID addressing is decided under C04 (ZZ_C04_ModifyHeader / DeleteHeader with an unconstrained 64-bit SEID)",
     "assumptions": PFCP_ASSUME + FWD_ASSUME,
 }
